@@ -1,0 +1,25 @@
+//go:build verif
+
+package starlark
+
+import "go.starlark.net/internal/compile"
+
+// VerifFrozen reports the frozen flag of a list, dict, set or function
+// (read-only). ok is false for any other value.
+func VerifFrozen(v Value) (frozen, ok bool) {
+	switch v := v.(type) {
+	case *List:
+		return v.frozen, true
+	case *Dict:
+		return v.ht.frozen, true
+	case *Set:
+		return v.ht.frozen, true
+	case *Function:
+		return v.frozen, true
+	}
+	return false, false
+}
+
+// VerifLNTDecoded reports whether the line-number table of fn's Funcode has
+// been decoded (read-only, unsynchronised: for sequential use).
+func VerifLNTDecoded(fn *Function) bool { return compile.VerifLNTDecoded(fn.funcode) }
